@@ -616,6 +616,32 @@ for rd in ('mysql', 'postgresql', 'sqlite', 'mssql', 'oracle'):
 render_ops.extend(built_ops)
 for rd in ('mysql', 'postgresql', 'sqlite', 'mssql', 'oracle'):
     fam('render_built_' + rd, [o for o in built_ops if o['rd'] == rd])
+# names and constants that look like the markup of a later stage: format specifiers (%, %s, %(x)s), bind-parameter markers (:p, ?, $1),
+# braces, quotes, backslashes, non-ASCII.  Every stage that quotes, escapes or substitutes (the renderer's identifier preparer, the
+# literal compiler, the plain-insert parameter path) treats them specially, and whatever it remembers about them is remembered for
+# the next statement too.  Same odd name in every statement kind, per dialect, parsed and caller-built, with and without parameters.
+ODD_NAMES = ['growth%', 'a b', '%s', '%(x)s', ':p', 'q?', '$1', '{x}', "it's", 'x\\y', 'Üñí', 'a"b', '100%%', 'sel-ect']
+markup_ops = []
+for rd in ('mysql', 'postgresql', 'sqlite', 'mssql', 'oracle'):
+    fam_ops_ = []
+    for i_, nm_ in enumerate(ODD_NAMES):
+        q_ = '`%s`' % nm_
+        lit_ = "'%s'" % nm_.replace("'", "''").replace('\\', '\\\\')
+        stmts_ = ["select %s, b from t1 where %s > 1" % (q_, q_), "select a as %s from `t %s` where c = %s" % (q_, nm_, lit_),
+                  "insert into t1 (%s, b) values (1, %s)" % (q_, lit_), "update t1 set %s = 2 where b = %s" % (q_, lit_),
+                  "delete from t1 where %s = %s" % (q_, lit_)]
+        for j_, sql_ in enumerate(stmts_):
+            if (i_ + j_) % 2 == 0 or rd in ('mysql', 'postgresql'):
+                if outcome('mindsdb', sql_).startswith('ok'):
+                    fam_ops_.append({'k': 'render', 'd': 'mindsdb', 'sql': sql_, 'rd': rd, 'fb': True})
+        for wp_ in (True, False):
+            o_ = {'k': 'render', 'd': 'mindsdb', 'sql': '<built:insert_plainq_%d>' % i_, 'ast': 'insert_plainq_%d' % i_, 'rd': rd, 'fb': True}
+            if wp_:
+                o_['wp'] = True
+            fam_ops_.append(o_)
+    fam('markup_names_' + rd, fam_ops_)
+    markup_ops += fam_ops_
+render_ops.extend(markup_ops)
 # the two alias names of the renderer's dialect table next to the dialects they map to
 fam('render_aliases', [o for o in render_ops if o['sql'] in RENDER_WP and o['rd'] in ('oracle', 'Snowflake', 'postgres', 'postgresql')])
 for rd in ('mysql', 'postgresql', 'sqlite', 'mssql', 'oracle'):
